@@ -184,6 +184,19 @@ def run(ctx):
     if fq == 'midi_io:note_sequence_to_pretty_midi':
       from sa import pmfacts
       ordr.instrument_order(ctx, fi, o, 'ORD/traversal/instrument-order', pmfacts.PMFacts().write_keeps_instrument_order())
+    # a cut at the first element that fails a test keeps a *stored prefix* (or drops one): which elements survive depends on where
+    # in the stored order the first failing one stands, whatever is done with the survivors afterwards (sorting them comes too late)
+    for c in U.calls_in(fi.node):
+      d = (dotted(c.func) or '').split('.')[-1]
+      if d in ('takewhile', 'dropwhile') and len(c.args) == 2:
+        p = o.prov(c.args[1], c)
+        if p.kind in ('STORAGE', 'BADSORT'):
+          unk = p.detail if p.detail.startswith(ordr.UNK) else None
+          ctx.ob('ORD/stored-prefix', fi, c, False, '%s cuts %s at the first element that fails the test, in storage order (%s): an element that passes the test but is stored behind a '
+                 'failing one is lost, so the result depends on the order in which the events are stored' % (d, norm_text(c.args[1]), p.detail),
+                 construct='%s over %s' % (d, norm_text(c.args[1])), definite=unk is None, unknown=unk)
+        else:
+          ctx.ob('ORD/stored-prefix', fi, c, True, '%s runs over %s' % (d, p.detail or 'a sequence that is not in storage order'), construct='%s over %s' % (d, norm_text(c.args[1])))
     for s in sites:
       if s.kind == 'sorted-traversal':
         ctx.ob('ORD/sorted-traversal', fi, s.stmt, True, 'iterates %s' % s.prov.detail, construct=s.what)
@@ -445,6 +458,8 @@ MUTANTS = [
            '  time_signatures_and_tempos = (\n      list(note_sequence.time_signatures) + list(note_sequence.tempos))', rule='ORD/'),
     Mutant('sustain: events not sorted', SL, '  events.sort(key=operator.itemgetter(0, 1))\n', '  pass\n', rule='ORD/'),
     Mutant('sustain: sorted by rank only', SL, '  events.sort(key=operator.itemgetter(0, 1))\n', '  events.sort(key=operator.itemgetter(1))\n', rule='ORD/'),
+    Mutant('extract: late state events cut off before sorting', SL, "    previous_event = None\n    subsequence_index = -1\n    for event in sorted(events, key=lambda event: event.time):",
+           "    previous_event = None\n    subsequence_index = -1\n    for event in sorted(itertools.takewhile(lambda e: e.time <= split_times[-1], events), key=lambda event: event.time):", rule='ORD/stored-prefix'),
     Mutant('quantize: compare against first stored time signature', SL, 'time_signature.numerator != time_signatures[0].numerator', 'time_signature.numerator != qns.time_signatures[0].numerator', rule='ORD/positional'),
     Mutant('quantize: compare against first stored tempo', SL, 'if tempo.qpm != tempos[0].qpm:', 'if tempo.qpm != qns.tempos[0].qpm:', rule='ORD/positional'),
     Mutant('quantize: time signatures not sorted', SL, 'time_signatures = sorted(qns.time_signatures, key=lambda ts: ts.time)', 'time_signatures = list(qns.time_signatures)', rule='ORD/'),
